@@ -14,8 +14,10 @@ type Query struct {
 	stopTL          *influxql.TimeLiteral
 	groupByTimeDL   *influxql.DurationLiteral
 	groupByOffsetDL *influxql.DurationLiteral
-	stmt            *influxql.SelectStatement
-	alignGroup      bool
+	// The offset given with the time dimension, alignGroup offsets the aligned groups by it.
+	groupByUserOffset time.Duration
+	stmt              *influxql.SelectStatement
+	alignGroup        bool
 }
 
 func NewQuery(queryString string) (*Query, error) {
@@ -103,7 +105,7 @@ func (q *Query) StopTime() time.Time {
 func (q *Query) SetStartTime(s time.Time) {
 	q.startTL.Val = s
 	if q.alignGroup && q.groupByTimeDL != nil && q.groupByOffsetDL != nil {
-		q.groupByOffsetDL.Val = s.Sub(time.Unix(0, 0)) % q.groupByTimeDL.Val
+		q.groupByOffsetDL.Val = s.Sub(time.Unix(0, 0))%q.groupByTimeDL.Val + q.groupByUserOffset
 	}
 }
 
@@ -115,8 +117,9 @@ func (q *Query) SetStopTime(s time.Time) {
 // Deep clone this query
 func (q *Query) Clone() (*Query, error) {
 	n := &Query{
-		stmt:       q.stmt.Clone(),
-		alignGroup: q.alignGroup,
+		stmt:              q.stmt.Clone(),
+		alignGroup:        q.alignGroup,
+		groupByUserOffset: q.groupByUserOffset,
 	}
 	// Find the start/stop time literals
 	var err error
@@ -179,6 +182,7 @@ func (q *Query) Dimensions(dims []interface{}) error {
 	q.groupByOffsetDL = &influxql.DurationLiteral{
 		Val: 0,
 	}
+	q.groupByUserOffset = 0
 	// Add in dimensions
 	hasTime := false
 	for _, d := range dims {
@@ -227,6 +231,7 @@ func (q *Query) Dimensions(dims []interface{}) error {
 				Val: dim.Length,
 			}
 			q.groupByOffsetDL.Val = dim.Offset
+			q.groupByUserOffset = dim.Offset
 			if q.alignGroup {
 				q.SetStartTime(q.StartTime())
 			}
